@@ -160,6 +160,18 @@ CLAIMED = {
         'technique': 'Lean 4 proof (Mathlib Matrix algebra over a field) + exact-rational differential correspondence of sparse operators',
         'design': '4/C15',
     },
+    'C16': {
+        'text': 'Proof: the octree k-nearest search refines an order-independent branch and bound (C16_branch_and_bound: skip / drop / expand / '
+                'scan / reorder; C16_knn_refines, C16_knn_terminates with fuel = tree size, C16_knn_output incl. -1/inf padding, offset '
+                'vectors and squared distances), C16_lb_sound / C16_ub_sound / C16_root_contains / C16_leaf_contains, C16_hausdorff (pruned '
+                'max-min = brute force, symmetric = max of directed), C16_hop_graph / C16_hop_nodal_chain (BFS = reachability) are kernel-'
+                'checked over Rat with squared distances; tied by integer-coordinate scenes (ties, duplicates, collinear / coplanar, k '
+                'beyond |T|, bounds on realised distances) compared with the model and an exhaustive tie-tolerant oracle.',
+        'note': 'binary64 rounding of the octree boxes is not modelled (the repaired octree-gap defect lived exactly there); elemental hop kernel '
+                'is stricter than its docstring (open known finding)',
+        'technique': 'Lean 4 refinement proof (abstract branch and bound -> concrete loop) + differential correspondence + exhaustive oracle',
+        'design': '4/C16',
+    },
     'C17': {
         'text': 'Proof: C17_arr_mat_inverse (all 720 component orders x both shear conventions over the generated index tables, symmetry), '
                 'C17_principal / C17_principal_array (descending, orthonormal, right-handed, rebuilds the tensor, under the eigh post-condition), '
@@ -190,6 +202,17 @@ CLAIMED = {
                 '(volume/area/metric) and user-data-untouched are checked by the oracle (fresh-mesh comparison, snapshots), not by the model',
         'technique': 'Lean 4 proof (freshness invariant over nested LRU accesses and histories) + traced call graph + differential hit/miss correspondence',
         'design': '4/C19',
+    },
+    'C20': {
+        'text': 'Proof: C20_check_polyhedron_spec / C20_checker_sound (the coded checker implies closed cells with >= 3 distinct nodes per face), '
+                'C20_merge_closed_additive / C20_merge_closed, C20_edge_merge(_flux), C20_nodes_exact (reindex), C20_mean_constants(_back), '
+                'C20_sum_total(_back), C20_rows_cols_nonempty are kernel-checked step theorems; every cell of every real compress() output '
+                'goes through the verified checker in the driver (validation, labelled so); merge / reindex / remove-edge steps and the four '
+                'transfer functions are compared with the model on the real conversion matrices; volumes by exact rationals.',
+        'note': 'the heuristic compress() pipeline (hashing seed, float thresholds, greedy orders) is not modelled end to end; volume clause '
+                'is an open known finding for thresholds admitting non-coplanar merges',
+        'technique': 'Lean 4 proof of step lemmas + verified checker applied per output (validation) + differential correspondence on real matrices',
+        'design': '4/C20',
     },
 }
 
